@@ -310,6 +310,7 @@ def install_add_attacker(reg):
         k = kid(c)
         return WF(h, G) + [
             ('id', h.f('id', a) == k),
+            ('next-id', h.f('next_attacker_id', G) == z3.If(v_i(k) + 1 >= o.f('next_attacker_id', G), v_i(k) + 1, o.f('next_attacker_id', G))),
             ('attackers', z3.And(h.cnt(AL, a) == 1, FA([b], z3.Implies(b != a, h.cnt(AL, b) == o.cnt(AL, b)), [h.cnt(AL, b)]))),
             ('reached', FA([n], z3.Implies(is_node(o, G, n), (reached(h, a, n) > 0) == image(o, G, c.reached_attack_steps, n)), [reached(h, a, n)])),
             ('entry', FA([n], z3.Implies(is_node(o, G, n), (entry(h, a, n) > 0) == image(o, G, c.entry_points, n)), [entry(h, a, n)])),
@@ -510,6 +511,7 @@ def install(reg: Registry):
 # ---------------------------------------------------------------------------------------------------
 def install_attach_attackers(reg):
     SEP = str_const(':')
+    AAN = reg.schema.storage('AttackerAttachment', 'name')      # Optional[str]: class-qualified storage
 
     def step_name(h, t, s):
         """asset.name + ':' + step for entry-point tuple t and step value s"""
@@ -564,7 +566,7 @@ def install_attach_attackers(reg):
                                             h.f('model', G) == o.f('model', G), h.f('attackers', model_of_h(o, G)) == o.f('attackers', model_of_h(o, G)))),
             ('names-kept', z3.And(*[FA([A('x!nk')], z3.Implies(z3.And(A('x!nk') >= 0, A('x!nk') < o.alloc),
                                                                z3.Select(h.arr[n_], A('x!nk')) == z3.Select(o.arr[n_], A('x!nk'))), [z3.Select(h.arr[n_], A('x!nk'))])
-                                    for n_ in ('f_name', 'f_asset', 'f_t0', 'f_t1', 'f_id') if not z3.eq(h.arr[n_], o.arr[n_])], z3.BoolVal(True))),
+                                    for n_ in ('f_name', 'f_' + AAN, 'f_asset', 'f_t0', 'f_t1', 'f_id') if not z3.eq(h.arr[n_], o.arr[n_])], z3.BoolVal(True))),
         ]
 
     def model_of_h(o, G):
@@ -589,7 +591,7 @@ def install_attach_attackers(reg):
         n = A('n!at')
         return z3.And(
             is_VRef(h.at(atts_l(o, G), o.len(atts_l(o, G)) + j)), is_att(h, G, a), z3.Not(is_att(o, G, a)),
-            h.f('name', a) == o.f('name', I),
+            VStr(h.f('name', a)) == o.f(AAN, I),
             FA([n], z3.Implies(is_node(o, G, n), (reached(h, a, n) > 0) == named(o, G, I, n)), [reached(h, a, n)]),
             FA([n], z3.Implies(is_node(o, G, n), entry(h, a, n) == reached(h, a, n)), [entry(h, a, n)]))
 
@@ -616,7 +618,7 @@ def install_attach_attackers(reg):
         hb = top.h       # heap at the head of the current outer iteration
         return WF(h, G) + others_kept(o, h, G) + [
             ('attacker-in-G', z3.And(is_att(h, G, a), z3.Not(is_att(o, G, a)), h.at(AL, o.len(AL) + top.i) == VRef(a), h.len(AL) == o.len(AL) + top.i + 1)),
-            ('attacker-name', h.f('name', a) == o.f('name', c.local('attacker_info').t)),
+            ('attacker-name', VStr(h.f('name', a)) == o.f(AAN, c.local('attacker_info').t)),
             ('prefix-kept', FA([j], z3.Implies(z3.And(0 <= j, j < o.len(AL) + top.i), h.at(AL, j) == hb.at(AL, j)), [h.at(AL, j)])),
             ('earlier-attackers-kept', FA([b], z3.Implies(z3.And(is_att(hb, G, b)), z3.And(
                 list_unchanged(hb, h, hb.f('reached_attack_steps', b)), list_unchanged(hb, h, hb.f('entry_points', b)), b != a,
@@ -667,7 +669,7 @@ def install_attach_attackers(reg):
         I = A('I!rc')
         M = model_of_h(o, G)
         return z3.Or(is_VNone(o.f('model', G)),
-                     z3.Exists([I], z3.And(o.cnt(o.f('attackers', M), I) > 0, o.f('name', I) == str_const(''))))
+                     z3.Exists([I], z3.And(o.cnt(o.f('attackers', M), I) > 0, z3.Or(is_VNone(o.f(AAN, I)), o.f(AAN, I) == VStr(str_const(''))))))
 
     def exc_ens(c):
         return WF(c.h, c.self)
